@@ -315,34 +315,38 @@ def eligible (s : St) (cur : Option Nat) : Slot → Bool
   | .reserved _ => false
   | .pase _ => true
 
+def notFiller : Slot → Bool
+  | .filler _ => false
+  | _ => true
+
 def classOf : Slot → Option VClass
   | .filler _ => some .filler
   | .unsec _ => some .unsec
   | .reserved _ => none
   | .pase _ => some .pase
 
-/-- index of the session that is evicted: the first eligible one of the class the implementation
-took, else the first eligible one; `none` = every session is reserved or has an active exchange -/
-def evictPick (s : St) (cur : Option Nat) (v : Option VClass) : Option Nat :=
+/-- the session that is evicted: the first eligible one of the class the implementation took, else
+the first eligible one; `none` = every session is reserved or has an active exchange -/
+def evictPick (s : St) (cur : Option Nat) (v : Option VClass) : Option Slot :=
   let pref := match v with
-    | some c => s.table.findIdx? (fun sl => eligible s cur sl && classOf sl == some c)
+    | some c => s.table.find? (fun sl => eligible s cur sl && classOf sl == some c)
     | none => none
   match pref with
-  | some i => some i
-  | none => s.table.findIdx? (eligible s cur)
+  | some sl => some sl
+  | none => s.table.find? (eligible s cur)
 
-/-- the session at index `i` leaves the table (`Sessions::remove`); an unsecured session takes its
-receive-counter state with it -/
-def removeSlot (s : St) (i : Nat) : St :=
-  { s with table := s.table.eraseIdx i,
-           seen := match s.table[i]? with
-             | some (.unsec x) => s.seen.filter (·.1 != x)
+/-- the session `sl` leaves the table (`Sessions::remove`; entries of one class and exchange are
+interchangeable, the first is taken); an unsecured session takes its receive-counter state with it -/
+def removeSlot (s : St) (sl : Slot) : St :=
+  { s with table := s.table.erase sl,
+           seen := match sl with
+             | .unsec x => s.seen.filter (·.1 != x)
              | _ => s.seen }
 
 /-- `write_evict_some_session_packet`: evict one session if any may be taken -/
 def evictOne (s : St) (v : Option VClass) : St :=
   match evictPick s none v with
-  | some i => removeSlot s i
+  | some sl => removeSlot s sl
   | none => s
 
 /-- `Sessions::add` as used by `decode_packet` / `ReservedSession::reserve_now`: `none` = `NoSpaceSessions` -/
@@ -355,7 +359,7 @@ def reserve (s : St) (x : Nat) (v : Option VClass) : Option St :=
   | some s' => some s'
   | none =>
     match evictPick s (some x) v with
-    | some i => addSlot (removeSlot s i) (.reserved x)
+    | some sl => addSlot (removeSlot s sl) (.reserved x)
     | none => none
 
 /-- `ReservedSession::complete` + `drop`: the reserved slot becomes the PASE session, in place -/
@@ -494,7 +498,7 @@ def step (s : St) : Op → St × Out
     let k := min n (maxSessions - s.table.length)
     ({ s with table := s.table ++ List.replicate k (.filler pinned) }, .okN k)
   | .unfill =>
-    ({ s with table := s.table.filter (fun sl => match sl with | .filler _ => false | _ => true) }, .ok)
+    ({ s with table := s.table.filter notFiller }, .ok)
 
 def run (s : St) : List Op → St
   | [] => s
